@@ -40,7 +40,7 @@ func BcryptGenerateFromPassword(password []byte, cost int) ([]byte, error) {
 	if len(password) > 72 {
 		return nil, ErrPasswordTooLong
 	}
-	return []byte(BcMake(string(password), verif.FreshString("bcsalt", BcSaltLen))), nil
+	return []byte(BcMake(string(password), verif.FreshString("bcsalt!alnum", BcSaltLen))), nil
 }
 
 func BcryptCompareHashAndPassword(hash, password []byte) error {
